@@ -116,7 +116,10 @@ class StlAstParserVisitor(LtlAstParserVisitor, StlParserVisitor):
 
         val = self.const_val_dict[const_name]
 
-        out = Fraction(Decimal(val))
+        try:
+            out = Fraction(Decimal(val))
+        except ArithmeticError:
+            raise RTAMTException('The value {} of the constant {} is not supported as a bound'.format(val, const_name))
 
         if ctx.unit() is None:
             unit = ''
@@ -127,7 +130,10 @@ class StlAstParserVisitor(LtlAstParserVisitor, StlParserVisitor):
 
 
     def visitIntervalTimeLiteral(self, ctx):
-        time_bound = Fraction(Decimal(ctx.literal().getText()))
+        try:
+            time_bound = Fraction(Decimal(ctx.literal().getText()))
+        except ArithmeticError:
+            raise RTAMTException('The literal {} is not supported as a bound'.format(ctx.literal().getText()))
         if ctx.unit() is None:
             unit = ''
         else:
